@@ -326,6 +326,10 @@ def build():
                          ensures=[lambda ex, env: lift(env["result"]) == LBL(T(env["table_id"]), T(env["row"]), T(env["g_nhc"]) - 1)
                                   if isinstance(env["result"], SStr) else z3.BoolVal(False)]))
 
+    # which labels are usable names at all: contracts/C09_scopes.py
+    from contracts import C09_scopes
+    C09_scopes.add(plan, ctx, lambda plan_, c: {"custom": "search_refs", "native_module": plan_.native_module})
+
     # header labels are cached: Table.write must invalidate the cache exactly for writes into the header area (C12's Table.write contract, re-verified)
     from contracts import C12
     p12 = C12.build()
